@@ -338,3 +338,106 @@ Proof.
       rewrite register_all_eq. split; [reflexivity|]. cbn [snd]. unfold h_put, put_tree. cbn [htrees trees next].
       apply RepW_put; [assumption|]. exact R3.
 Qed.
+
+(* ---- several sources: add(tree), copy_to(add_self=False) ---- *)
+Lemma sim_add_nodes ti p sti b deep : forall srcs hw w acc, WFw w -> RepW hw w ->
+  Sim (h_add_nodes hw ti p sti srcs b deep acc) (add_nodes w ti p sti srcs b deep acc).
+Proof.
+  induction srcs as [|s rest IH]; intros hw w acc W RW; cbn [h_add_nodes add_nodes]; [now apply Sim_same|].
+  destruct (sim_op_add_node hw w ti p sti s None None b deep W RW) as (E1 & E2).
+  assert (W' := WFw_op_add_node w ti p sti s None None b deep W).
+  destruct (h_op_add_node hw ti p sti s None None b deep) as [r1 hw1]. destruct (op_add_node w ti p sti s None None b deep) as [r2 w1].
+  cbn [fst snd] in *. subst r2. destruct r1 as [r|e]; [now apply IH|now split].
+Qed.
+
+Lemma any_collides_agree h t p hs st srcs : WF t -> Rep h t -> WF st -> Rep hs st ->
+  h_any_collides h p hs srcs = any_collides t p st srcs.
+Proof.
+  intros W R Ws Rs. unfold h_any_collides, any_collides. apply existsb_ext_in'. intros s _.
+  assert (D := did_of_agree hs st s Ws Rs). destruct (did_of s (forest_of st)) as [d|].
+  - destruct D as (L & Ed). rewrite L, Ed. cbn [andb]. now apply collides_agree.
+  - now rewrite D.
+Qed.
+
+Lemma is_desc_agree h t s p : WF t -> Rep h t ->
+  h_live h s && h_plive h p && (if Nat.eqb p 0 then false else h_is_anc (h_fuel h) h s p) = is_desc_or_self s p (forest_of t).
+Proof.
+  intros W R. unfold is_desc_or_self. assert (Ls := h_live_ids h t s W R).
+  destruct (get_node s (forest_of t)) as [x|] eqn:Gn.
+  2:{ replace (h_live h s) with false; [reflexivity|]. destruct (h_live h s); [|reflexivity].
+      destruct (get_node_complete s _ (proj1 Ls eq_refl)) as (x & X). congruence. }
+  destruct (get_node_spec s _ x Gn) as (Px & Rx).
+  replace (h_live h s) with true by (symmetry; apply Ls; rewrite <- Rx; unfold ids; now apply in_map). cbn [andb].
+  destruct (Nat.eqb p 0) eqn:E0.
+  - rewrite andb_false_r. apply Nat.eqb_eq in E0. subst p. symmetry. destruct (existsb (Nat.eqb 0) (ids_t x)) eqn:X; [|reflexivity].
+    apply existsb_exists in X. destruct X as (m & Hm & E). apply Nat.eqb_eq in E. subst m. exfalso. apply (wf_pos t W).
+    unfold ids_t in Hm. apply in_map_iff in Hm. destruct Hm as (y & <- & Hy). unfold ids. apply in_map.
+    destruct (pre_f_segment _ x Px) as (a0 & b0 & E0). rewrite E0. apply in_or_app. right. apply in_or_app. now left.
+  - apply Nat.eqb_neq in E0. unfold h_plive. replace (Nat.eqb p 0) with false by (symmetry; now apply Nat.eqb_neq). cbn [orb].
+    destruct (h_live h p) eqn:Lp; cbn [andb].
+    + apply (is_anc_agree h t W R s p x Gn). now apply (h_live_ids h t p W R).
+    + symmetry. destruct (existsb (Nat.eqb p) (ids_t x)) eqn:X; [|reflexivity]. exfalso.
+      apply existsb_exists in X. destruct X as (m & Hm & E). apply Nat.eqb_eq in E. subst m.
+      assert (Hp : In p (ids (forest_of t))).
+      { unfold ids_t in Hm. apply in_map_iff in Hm. destruct Hm as (y & <- & Hy). unfold ids. apply in_map.
+        destruct (pre_f_segment _ x Px) as (a0 & b0 & E1). rewrite E1. apply in_or_app. right. apply in_or_app. now left. }
+      apply (h_live_ids h t p W R) in Hp. congruence.
+Qed.
+
+Lemma into_own_agree hw w ti sti h hs t st srcs p deep :
+  h_get hw ti = Some h -> h_get hw sti = Some hs -> get_tree w ti = Some t -> get_tree w sti = Some st ->
+  WF st -> Rep hs st ->
+  h_any_into_own_branch ti sti hs srcs p deep = any_into_own_branch ti sti st srcs p deep.
+Proof.
+  intros Gh Ghs Gt Gst Ws Rs. unfold h_any_into_own_branch, any_into_own_branch. destruct deep as [[|]|]; try reflexivity.
+  f_equal. apply existsb_ext_in'. intros s _. now apply is_desc_agree.
+Qed.
+
+Theorem sim_op_add_tree hw w ti p sti b deep : WFw w -> RepW hw w ->
+  Sim (h_op_add_tree hw ti p sti b deep) (op_add_tree w ti p sti b deep).
+Proof.
+  intros W RW. unfold h_op_add_tree, op_add_tree. assert (G := RepW_get2 hw w ti sti RW).
+  destruct (h_get hw ti) as [h|] eqn:Gh; destruct (h_get hw sti) as [hs|] eqn:Ghs;
+    destruct (get_tree w ti) as [t|] eqn:Gt; destruct (get_tree w sti) as [st|] eqn:Gst; try contradiction; try (now apply Sim_same).
+  destruct G as (R & Rs). assert (Wt := WFw_tree w ti t W Gt). assert (Wst := WFw_tree w sti st W Gst).
+  rewrite (rep_typed h t R), (rep_typed hs st Rs). destruct (typed t && negb (typed st)); [now apply Sim_same|].
+  assert (Et : hch hs 0 = map rid (forest_of st)) by (apply (rep_children hs st 0 [] _ Wst Rs); reflexivity). rewrite Et.
+  assert (En : (if h_plive h p then length (hch h p) else 0) = match children_of p (forest_of t) with Some ch => length ch | None => 0 end).
+  { assert (Pl := h_plive_path h t p Wt R). unfold children_of. destruct (parent_path p (forest_of t)) as [pq|] eqn:Gp.
+    - replace (h_plive h p) with true by (symmetry; apply Pl; now exists pq). destruct (parent_path_get p _ pq Gp) as (ch & Gc).
+      rewrite Gc, (rep_children h t p pq ch Wt R Gp Gc). apply map_length.
+    - replace (h_plive h p) with false; [reflexivity|]. destruct (h_plive h p); [|reflexivity]. destruct (proj1 Pl eq_refl) as (pq & X). discriminate. }
+  rewrite En. rewrite (any_collides_agree h t p hs st _ Wt R Wst Rs).
+  destruct (any_collides t p st (map rid (forest_of st))); [now apply Sim_same|].
+  rewrite (into_own_agree hw w ti sti h hs t st _ p _ Gh Ghs Gt Gst Wst Rs).
+  match goal with |- context [if ?c then (Err EValue, hw) else _] => destruct c end; [now apply Sim_same|].
+  match goal with |- context [add_nodes w ti p sti ?o ?bb ?d []] => destruct (sim_add_nodes ti p sti bb d o hw w [] W RW) as (E1 & E2);
+    destruct (h_add_nodes hw ti p sti o bb d []) as [r1 hw1]; destruct (add_nodes w ti p sti o bb d []) as [r2 w1] end.
+  cbn [fst snd] in *. subst r2. destruct r1; now split.
+Qed.
+
+Theorem sim_op_copy_to hw w sti src ti target add_self b deep : WFw w -> RepW hw w ->
+  Sim (h_op_copy_to hw sti src ti target add_self b deep) (op_copy_to w sti src ti target add_self b deep).
+Proof.
+  intros W RW. unfold h_op_copy_to, op_copy_to. destruct add_self; [now apply sim_op_add_node|].
+  assert (G := RepW_get2 hw w ti sti RW).
+  destruct (h_get hw ti) as [h|] eqn:Gh; destruct (h_get hw sti) as [hs|] eqn:Ghs;
+    destruct (get_tree w ti) as [t|] eqn:Gt; destruct (get_tree w sti) as [st|] eqn:Gst; try contradiction; try (now apply Sim_same).
+  destruct G as (R & Rs). assert (Wt := WFw_tree w ti t W Gt). assert (Wst := WFw_tree w sti st W Gst).
+  assert (Pl := h_plive_path hs st src Wst Rs). unfold children_of.
+  destruct (parent_path src (forest_of st)) as [pq|] eqn:Gp.
+  2:{ replace (h_plive hs src) with false; [now apply Sim_same|]. destruct (h_plive hs src); [|reflexivity].
+      destruct (proj1 Pl eq_refl) as (pq & X). discriminate. }
+  replace (h_plive hs src) with true by (symmetry; apply Pl; now exists pq). cbn [negb].
+  destruct (parent_path_get src _ pq Gp) as (ch & Gc). rewrite Gc, (rep_children hs st src pq ch Wst Rs Gp Gc).
+  destruct ch as [|c0 ch]; [now apply Sim_same|]. cbn [map].
+  change (rid c0 :: map rid ch) with (map rid (c0 :: ch)).
+  rewrite (any_collides_agree h t target hs st _ Wt R Wst Rs).
+  destruct (any_collides t target st (map rid (c0 :: ch))); [now apply Sim_same|].
+  rewrite (into_own_agree hw w ti sti h hs t st _ target _ Gh Ghs Gt Gst Wst Rs).
+  destruct (any_into_own_branch ti sti st (map rid (c0 :: ch)) target (Some deep)); [now apply Sim_same|].
+  destruct (sim_add_nodes ti target sti BNone (Some deep) (map rid (c0 :: ch)) hw w [] W RW) as (E1 & E2).
+  destruct (h_add_nodes hw ti target sti (map rid (c0 :: ch)) BNone (Some deep) []) as [r1 hw1].
+  destruct (add_nodes w ti target sti (map rid (c0 :: ch)) BNone (Some deep) []) as [r2 w1].
+  cbn [fst snd] in *. subst r2. destruct r1; now split.
+Qed.
